@@ -256,6 +256,87 @@ def run(seed, n, run_step=None, batch=25):
             'samples': samples}
 
 
+# ------------------------------------------------------------------------------------ input-text cases
+
+VARIANTS = {
+    'BooleanInput': ['YES', 'Yes', 'on', 'OFF', 'y', 'N', ' true ', 'maybe', '', '\uff59\uff45\uff53', 'False', '1', '0',
+                     '\u00a0no\u2003', 'T', 'oN', '\u212a'],
+    'IntegerInput': ['007', '+3', '-0', '1_0', '1__0', '_1', '\u0663', '\uff13', '1.0', '0x10', '', ' ', '1e3', '\uff19\uff19',
+                     ' 2 ', '\t1\n', '\u00a02', '2\u3000', '--1', '1 0', '\u0967\u0968', '3_', '1_000'],
+    'FloatInput': ['1e3', '.5', '5.', '1_000.5', 'inf', 'nan', '-inf', '1e999', '\u0661\u0662.\u0665', 'Infinity', '+1.5e-3',
+                   '1,000', '1e', '--1', '1.7976931348623159e308', '4.9e-324', '0x1p3', ' 12.50 ', '\u00a07.25', '1_0.5',
+                   '1e+3', '1E3', '-0.0', '.', '1._5', '\uff11.\uff15', '2.675', '0.1', '1e-400', '12.345678901234567890'],
+    'SSNInput': ['123-45-6789', '123456789', '12-345-6789', '\uff11\uff12\uff13\uff14\uff15\uff16\uff17\uff18\uff19', '123-45-678',
+                 '1234567890', ' 123-45-6789 ', '---123456789', '12345678a', '\u0661\u0662\u0663456789'],
+    'RegexInput': ['011000015', '011000015\n', '991000015', '01100001', '\uff10\uff11\uff11000015', 'ACCT-12345', 'a' * 17, 'a' * 18,
+                   'AC CT', '', 'x_y', '321000015', '331000015', '12-34'],
+    'StringInput': ['caf\u00e9', ' padded ', '\u00a0nbsp\u00a0', '', 'a.b', 'x:y', 'tab\there', '\u2003em', 'MiXeD', "O'Brien"],
+    'EnumInput': ['', ' ', 'single', 'Single', ' Single ', 'None', 'NC', 'nc', ' NC', 'taxpayer', 'Taxpayer', 'spouse\u00a0', 'XX'],
+}
+
+
+def perturb(result, rng, k=None):
+    """a copy of the run's input file with a few texts replaced by variants for the input's class"""
+    inputs = dict(scenarios.inputs_of(result))
+    imap = result['solver']._input_map
+    by_cls = {}
+    for n in inputs:
+        if n in imap:
+            by_cls.setdefault(type(imap[n]).__name__, []).append(n)
+    changed = []
+    picked = []
+    for _ in range(k or rng.choice([1, 1, 2, 3])):       # every input class equally often
+        cls = rng.choice(sorted(by_cls))
+        n = rng.choice(by_cls[cls])
+        if n not in picked:
+            picked.append(n)
+    for n in picked:
+        cls = type(imap[n]).__name__
+        inputs[n] = rng.choice(VARIANTS.get(cls, VARIANTS['StringInput']))
+        changed.append((n, cls, inputs[n]))
+    return inputs, changed
+
+
+def run_inputs(seed, n, run_step=None, batch=30):
+    """input-text cases: solved scenarios replayed with some input texts replaced by whitespace /
+    case / sign / underscore / Unicode-digit / non-finite / near-miss variants; both sides must
+    agree on `InvalidInput` (and the input it names) or on every value"""
+    run_step = run_step or default_run_step
+    dist, bad, samples = {}, [], []
+    kinds = {}
+    done, k0 = 0, 0
+    while done < n:
+        rng = random.Random(f'{seed}/inputs/{k0}')
+        year = YEARS[k0 % len(YEARS)]
+        sseed = f'{seed}/inputs-base/{k0}'
+        policy, kind = scenarios.gen_policy(sseed, year, kind=rng.choice(['plain', 'rich', 'itemize', 'deps']))
+        base = scenarios.run(year, scenarios.request_for(sseed, year, kind), policy)
+        k0 += 1
+        if base.get('exception') is not None:
+            continue
+        cases, proto = [], []
+        for _ in range(min(batch, n - done)):
+            inputs, changed = perturb(base, rng)
+            real, _s = replay_real(base['year'], base['forms'], inputs)
+            cases.append((inputs, changed, real))
+            proto += protocol(base['year'], base['forms'], inputs)
+            for _n, cls, _t in changed:
+                kinds[cls] = kinds.get(cls, 0) + 1
+        model_out = split_model_output(run_step(proto), len(cases))
+        for (inputs, changed, real), model in zip(cases, model_out):
+            done += 1
+            verdict = ' '.join(real[0].split(' ')[:3]) if real[0].startswith('verdict abort') else real[0]
+            dist[verdict] = dist.get(verdict, 0) + 1
+            if model != real:
+                diffs = [(a, b) for a, b in zip(model + ['<none>'] * len(real), real + ['<none>'] * len(model)) if a != b]
+                a, b = summarize_diff(*diffs[0])
+                bad.append({'op': f'inputs {base["year"]} changed={changed!r}', 'model': a, 'real': b})
+            elif len(samples) < 3:
+                samples.append({'changed': repr(changed), 'answer': real[0]})
+    return {'cases': done, 'disagreements': bad, 'distribution': {'outcome': dist, 'changed_kind': kinds},
+            'samples': samples}
+
+
 if __name__ == '__main__':
     import json
     n = int(sys.argv[1]) if len(sys.argv) > 1 else 30
